@@ -23,7 +23,7 @@ _W = {}
 def _init(paths, repo_src):
     signal.signal(signal.SIGINT, signal.SIG_IGN)
     from .world import World
-    _W['world'] = World(paths['mir_micro'], paths['mir_vdev'], repo_src)
+    _W['world'] = None if paths.get('no_world') else World(paths['mir_micro'], paths['mir_vdev'], repo_src)
     _W['checks'] = {}
     _W['paths'] = paths
 
@@ -44,11 +44,13 @@ def _get_check(spec):
 def _task(args):
     spec, prefix, budget, deadline = args
     world = _W['world']
-    ex = world.ex
+    ex = world.ex if world is not None else None
     try:
         ex = getattr(_get_check(spec), 'ex', None) or ex     # checks over another crate bring their own engine
     except Exception:
-        pass
+        if ex is None:
+            return {'records': [], 'left': [prefix], 'paths': 0, 'transitions': 0, 'queries': 0, 'solver_time': 0.0, 'err': 'ERROR: ' + traceback.format_exc()[-2000:],
+                    'time': 0.0, 'called': [], 'natives': []}
     t0 = time.time()
     q0, st0 = ex.queries, ex.solver_time
     records = []
